@@ -114,3 +114,69 @@ def same_span(shells_a, shells_b):
 
 def nnz(shells):
     return sum(len(f) for sh in shells for _, f in shell_functions(sh))
+
+
+# ---------------------------------------------------------------- well-formedness (C08), re-stated from the property text
+def wellformed_problems(b, allow_empty_elements=False):
+    """list of rule violations of a basis dictionary (independent of validator.py)"""
+    out = []
+    types = set()
+    for z, el in b['elements'].items():
+        shells = el.get('electron_shells')
+        if shells is not None:
+            if not shells and not allow_empty_elements:
+                out.append('%s: empty electron_shells' % z)
+            seen_shells = []
+            for i, sh in enumerate(shells):
+                tag = '%s shell %d' % (z, i)
+                am = sh['angular_momentum']
+                ft = sh['function_type']
+                types.add(ft)
+                xs = sh['exponents']
+                cs = sh['coefficients']
+                if not xs:
+                    out.append(tag + ': no exponents')
+                try:
+                    xv = [dec(x) for x in xs]
+                    cv = [[dec(c) for c in col] for col in cs]
+                except Exception:
+                    out.append(tag + ': unparsable number')
+                    continue
+                if any(x <= 0 for x in xv):
+                    out.append(tag + ': non-positive exponent')
+                if len(set(xv)) != len(xv):
+                    out.append(tag + ': duplicate exponents')
+                if not cs:
+                    out.append(tag + ': no coefficients')
+                if any(len(col) != len(xs) for col in cs):
+                    out.append(tag + ': coefficient row length differs from number of exponents')
+                    continue
+                if any(all(c == 0 for c in col) for col in cv):
+                    out.append(tag + ': all-zero contraction')
+                for k in range(len(xs)):
+                    if cv and all(col[k] == 0 for col in cv):
+                        out.append(tag + ': unused primitive')
+                if len(am) > 1:
+                    if len(cs) != len(am):
+                        out.append(tag + ': fused shell with %d momenta and %d contractions' % (len(am), len(cs)))
+                else:
+                    if len({tuple(col) for col in cv}) != len(cv):
+                        out.append(tag + ': duplicated contraction')
+                if not am or any(a < 0 for a in am):
+                    out.append(tag + ': bad angular momentum')
+                elif ft.startswith('gto'):
+                    if max(am) <= 1 and ft != 'gto':
+                        out.append(tag + ': am %s marked %s' % (am, ft))
+                    if max(am) >= 2 and ft not in ('gto_spherical', 'gto_cartesian'):
+                        out.append(tag + ': am %s marked %s' % (am, ft))
+                key = (tuple(am), ft, tuple(xv), tuple(tuple(c) for c in cv))
+                if key in seen_shells:
+                    out.append(tag + ': duplicated shell')
+                seen_shells.append(key)
+        for p in el.get('ecp_potentials', []):
+            types.add(p['ecp_type'])
+    # "a function_types list naming every type actually present" (a type no longer present after
+    # remove_free_primitives may still be listed: the text does not forbid that)
+    if b.get('function_types') is not None and not set(types) <= set(b.get('function_types', [])):
+        out.append('function_types %s does not name every type present %s' % (b.get('function_types'), sorted(types)))
+    return out
